@@ -813,5 +813,209 @@ theorem validateLookup_entries (t : RawTree) (hT : TreeOK t) (Q : List Gene) (m 
       exact he
     · exact h1 k hp
 
+/-! ### `all_parents` lists ancestors before descendants -/
+
+theorem parentLevel_split (h : List Level) (l pl : Level)
+    (hp : (match h.idxOf? l with
+            | none => none
+            | some 0 => none
+            | some (i+1) => h[i]?) = some pl) :
+    ∃ pre post, h = pre ++ pl :: l :: post := by
+  induction h generalizing pl with
+  | nil => simp at hp
+  | cons x xs ih =>
+    rw [List.idxOf?_cons] at hp
+    by_cases hx : (x == l) = true
+    · simp [hx] at hp
+    · simp only [hx, if_false, Bool.false_eq_true] at hp
+      cases hj : xs.idxOf? l with
+      | none => simp [hj] at hp
+      | some j =>
+        simp only [hj, Option.map_some] at hp
+        cases j with
+        | zero =>
+          simp only [Nat.zero_add, List.getElem?_cons_zero, Option.some.injEq] at hp
+          subst hp
+          have := (List.idxOf?_eq_some_iff.1 hj)
+          obtain ⟨hlen, hget, _⟩ := this
+          cases xs with
+          | nil => simp at hlen
+          | cons y ys =>
+            simp at hget
+            subst hget
+            exact ⟨[], ys, rfl⟩
+        | succ j' =>
+          simp only [List.getElem?_cons_succ] at hp
+          obtain ⟨pre, post, e⟩ := ih pl (by simp [hj, hp])
+          exact ⟨x :: pre, post, by simp [e]⟩
+
+theorem parentLevel_idx (t : RawTree) (hN : t.hierarchy.Nodup) (l pl : Level)
+    (hp : t.parentLevel l = some pl) :
+    t.hierarchy.idxOf pl + 1 = t.hierarchy.idxOf l := by
+  unfold RawTree.parentLevel RawTree.levelIdx at hp
+  obtain ⟨pre, post, e⟩ := parentLevel_split t.hierarchy l pl hp
+  rw [e] at hN ⊢
+  have hn := List.nodup_append.1 hN
+  have h1 : pl ∉ pre := fun h => hn.2.2 pl h pl (by simp) rfl
+  have h2 : l ∉ pre := fun h => hn.2.2 l h l (by simp) rfl
+  have h3 : pl ≠ l := by
+    have := List.nodup_cons.1 hn.2.1
+    intro e; exact this.1 (by simp [e])
+  rw [List.idxOf_append, List.idxOf_append]
+  simp only [h1, h2, if_false, List.idxOf_cons]
+  have : (pl == l) = false := by simp [h3]
+  simp [this]
+  omega
+
+theorem parentsAux_levels (t : RawTree) (hN : t.hierarchy.Nodup) (fuel : Nat) (l : Level) (n : Node) :
+    ∀ x ∈ (t.parentsAux fuel l n).map (·.1), t.hierarchy.idxOf x < t.hierarchy.idxOf l := by
+  induction fuel generalizing l n with
+  | zero => simp [RawTree.parentsAux]
+  | succ f ih =>
+    intro x hx
+    simp only [RawTree.parentsAux] at hx
+    cases hp : t.parentLevel l with
+    | none => simp [hp] at hx
+    | some pl =>
+      simp only [hp] at hx
+      cases hc : t.childToParent l n with
+      | none => simp [hc] at hx
+      | some p =>
+        simp only [hc, List.map_cons, List.mem_cons] at hx
+        have := parentLevel_idx t hN l pl hp
+        rcases hx with rfl | hx
+        · omega
+        · have := ih pl p x hx
+          omega
+
+theorem lookup_mem_map_fst {α β} [BEq α] [LawfulBEq α] (l : List (α × β)) (a : α) (b : β)
+    (h : l.lookup a = some b) : a ∈ l.map (·.1) := by
+  induction l with
+  | nil => simp at h
+  | cons e es ih =>
+    obtain ⟨k, v⟩ := e
+    simp only [List.lookup_cons] at h
+    by_cases hk : a = k
+    · simp [hk]
+    · have : (a == k) = false := by simp [hk]
+      simp only [this] at h
+      simp [ih h]
+
+/-- a key the body of `(l₁, n₁)` reads lies at a level strictly above `l₁` -/
+theorem readKeys_level (t : RawTree) (hN : t.hierarchy.Nodup) (l1 : Level) (n1 : Node) (l2 : Level)
+    (n2 : Node) (h : some (l2, n2) ∈ readKeys t (some (l1, n1))) :
+    t.hierarchy.idxOf l2 < t.hierarchy.idxOf l1 := by
+  simp only [readKeys, List.mem_cons, ancestorKeys, List.mem_filterMap, reduceCtorEq, false_or] at h
+  obtain ⟨al, _, hal⟩ := h
+  cases hl : (t.parents l1 n1).lookup al with
+  | none => simp [hl] at hal
+  | some a =>
+    simp only [hl, Option.map_some, Option.some.injEq, Prod.mk.injEq] at hal
+    obtain ⟨rfl, rfl⟩ := hal
+    exact parentsAux_levels t hN _ l1 n1 al (lookup_mem_map_fst _ _ _ hl)
+
+theorem pairwise_idxOf (h : List Level) (hN : h.Nodup) :
+    h.Pairwise (fun a b => h.idxOf a < h.idxOf b) := by
+  induction h with
+  | nil => simp
+  | cons x xs ih =>
+    have hn := List.nodup_cons.1 hN
+    refine List.Pairwise.cons ?_ ?_
+    · intro a ha
+      have : (x == a) = false := by simp; exact fun e => hn.1 (e ▸ ha)
+      simp [List.idxOf_cons, this]
+    · refine (ih hn.2).imp_of_mem ?_
+      intro a b ha hb hab
+      have h1 : (x == a) = false := by simp; exact fun e => hn.1 (e ▸ ha)
+      have h2 : (x == b) = false := by simp; exact fun e => hn.1 (e ▸ hb)
+      simp [List.idxOf_cons, h1, h2, hab]
+
+/-- well-formedness of the taxonomy as far as the marker stage needs it: level
+names distinct, at least one level, every level of the hierarchy has its dict
+(`validate_taxonomy_tree`'s key check), node names within a level distinct
+(they are dict keys) -/
+structure TreeWF (t : RawTree) : Prop where
+  hierNodup : t.hierarchy.Nodup
+  hierNonempty : t.hierarchy ≠ []
+  hasLevels : ∀ l ∈ t.hierarchy, l ∈ t.levels.map (·.1)
+  nodesNodup : ∀ l ∈ t.hierarchy, (t.nodesAt l).Nodup
+
+theorem mem_allParents (t : RawTree) (l : Level) (n : Node) :
+    some (l, n) ∈ t.allParents ↔ l ∈ t.hierarchy.dropLast ∧ n ∈ t.nodesAt l := by
+  simp only [RawTree.allParents, List.mem_cons, reduceCtorEq, false_or, List.mem_flatMap, List.mem_map,
+    Option.some.injEq, Prod.mk.injEq]
+  constructor
+  · rintro ⟨l', hl', n', hn', rfl, rfl⟩; exact ⟨hl', hn'⟩
+  · rintro ⟨hl, hn⟩; exact ⟨l, hl, n, hn, rfl, rfl⟩
+
+theorem treeOK_of_wf (t : RawTree) (h : TreeWF t) : TreeOK t := by
+  have hsub : t.hierarchy.dropLast.Sublist t.hierarchy := List.dropLast_sublist _
+  have hmem : ∀ l ∈ t.hierarchy.dropLast, l ∈ t.hierarchy := fun l hl => hsub.subset hl
+  have hself : ∀ p ∈ t.allParents, p ∉ readKeys t p := by
+    intro p _ hp
+    cases p with
+    | none => simp [readKeys] at hp
+    | some ln =>
+      obtain ⟨l, n⟩ := ln
+      have := readKeys_level t h.hierNodup l n l n hp
+      omega
+  refine ⟨?_, ?_, ?_, hself⟩
+  · -- no repetition in all_parents
+    unfold RawTree.allParents
+    refine List.nodup_cons.2 ⟨by simp, ?_⟩
+    rw [List.nodup_iff_pairwise_ne, List.pairwise_flatMap]
+    constructor
+    · intro l hl
+      rw [List.pairwise_map]
+      refine (h.nodesNodup l (hmem l hl)).imp ?_
+      intro a b hab e
+      simp at e
+      exact hab e
+    · have : t.hierarchy.dropLast.Nodup := h.hierNodup.sublist hsub
+      refine this.imp ?_
+      intro a b hab x hx y hy e
+      simp only [List.mem_map] at hx hy
+      obtain ⟨_, _, rfl⟩ := hx
+      obtain ⟨_, _, rfl⟩ := hy
+      simp at e
+      exact hab e.1
+  · -- children() never raises on a parent
+    intro p hp
+    cases p with
+    | none =>
+      unfold childrenOf RawTree.children
+      cases hh : t.hierarchy.head? with
+      | none => exact absurd (List.head?_eq_none_iff.1 hh) h.hierNonempty
+      | some l0 => exact ⟨_, rfl⟩
+    | some ln =>
+      obtain ⟨l, n⟩ := ln
+      obtain ⟨hl, hn⟩ := (mem_allParents t l n).1 hp
+      have h1 : (t.levels.map (·.1)).contains l = true := by
+        simp only [List.contains_iff_mem]; exact h.hasLevels l (hmem l hl)
+      have h2 : (t.nodesAt l).contains n = true := by simpa using hn
+      have h2' : n ∈ t.nodesAt l := hn
+      exact ⟨t.entry l n, by
+        simp only [childrenOf, RawTree.children, h1, h2, Bool.not_true, Bool.false_eq_true, if_false]⟩
+  · -- ancestors come first
+    rw [List.pairwise_reverse]
+    unfold RawTree.allParents
+    refine List.Pairwise.cons (by simp [readKeys]) ?_
+    rw [List.pairwise_flatMap]
+    constructor
+    · intro l _
+      rw [List.pairwise_map]
+      refine (h.nodesNodup l (hmem l ‹_›)).imp ?_
+      intro a b _ hb
+      have := readKeys_level t h.hierNodup l a l b hb
+      omega
+    · have := (pairwise_idxOf t.hierarchy h.hierNodup).sublist hsub
+      refine this.imp ?_
+      intro a b hab x hx y hy hyx
+      simp only [List.mem_map] at hx hy
+      obtain ⟨n1, _, rfl⟩ := hx
+      obtain ⟨n2, _, rfl⟩ := hy
+      have := readKeys_level t h.hierNodup a n1 b n2 hyx
+      omega
+
 end Markers
 end CTM
